@@ -37,7 +37,7 @@ ASSUMPTIONS = [
 REQUIRED_CLAUSES = [
     "results-computed", "task-listed", "percentile-reference", "percentile-monotone", "percentile-bounds", "p100-max", "p50-median", "mean", "throughput-stats",
     "warmup-excluded", "no-normal-no-stats", "percentile-set-by-count", "report-lookup-percentile", "error-rate", "global-sum", "global-median", "per-shard-stats",
-    "section-passthrough", "store-roundtrip-dict", "store-roundtrip-flat", "store-roundtrip-list", "store-roundtrip-reader-view",
+    "section-passthrough", "store-roundtrip-dict", "store-roundtrip-flat", "store-roundtrip-list", "store-roundtrip-reader-view", "es-store-agrees",
 ]
 _BRACKETS = ["n=1", "n<10", "n<100", "n<1000", "n<10000", "n>=10000"]
 REQUIRED_FEATURES = {
@@ -592,7 +592,57 @@ def store_case_problems(ctx, env, spec):
         return [("results-computed", f"calculating the results raised {describe(e)}", {"metric": "crash"})]
     probs = results_problems(ctx, spec, race.results.as_dict(), env.seen_sets)
     probs.extend(roundtrip_problems(ctx, race, cfg))
+    env.es_counter = getattr(env, "es_counter", 0) + 1
+    if not probs and env.es_counter % 8 == 0 and len(spec["records"]) <= 3000:
+        probs.extend(es_store_problems(ctx, spec, race, cfg))
     return probs
+
+
+def es_store_problems(ctx, spec, race, cfg):
+    """The same records in rally's real EsMetricsStore (over an in-process index that executes its queries) must give the same results."""
+    from props import c08_es
+
+    ctx.clause("es-store-agrees")
+    trk, ch = build_track(spec)
+    es_race = make_race(cfg, trk, ch)
+    try:
+        results, index = c08_es.es_results(metrics, cfg, spec, trk, ch, es_race, fill_store)
+    except NotImplementedError as e:
+        ctx.note(f"es-store class: query feature not modelled: {e}")
+        return []
+    except Exception as e:
+        return [("es-store-agrees", f"calculating the results over the Elasticsearch metrics store raised {describe(e)}", {"metric": "crash"})]
+    a, b = race.results.as_dict(), results.as_dict()
+    if not same_numbers(a, b):
+        return [("es-store-agrees", "results over the Elasticsearch metrics store differ from the results over the in-memory store for the same records: "
+                 + first_diff_num(a, b).replace("before", "in-memory").replace("after", "Elasticsearch store"), {"metric": "es-store"})]
+    return []
+
+
+def same_numbers(a, b):
+    if isinstance(a, dict) and isinstance(b, dict):
+        return set(a) == set(b) and all(same_numbers(a[k], b[k]) for k in a)
+    if isinstance(a, list) and isinstance(b, list):
+        return len(a) == len(b) and all(same_numbers(x, y) for x, y in zip(a, b))
+    if isinstance(a, (int, float)) and isinstance(b, (int, float)) and not isinstance(a, bool) and not isinstance(b, bool):
+        return abs(a - b) <= 1e-9 * max(1.0, abs(a), abs(b))
+    return a == b
+
+
+def first_diff_num(a, b, path="results"):
+    if isinstance(a, dict) and isinstance(b, dict):
+        for k in list(a) + [k for k in b if k not in a]:
+            if k not in a or k not in b:
+                return f"{path}[{k!r}]: {'missing after' if k not in b else 'only after'}"
+            if not same_numbers(a[k], b[k]):
+                return first_diff_num(a[k], b[k], f"{path}[{k!r}]")
+    if isinstance(a, list) and isinstance(b, list):
+        if len(a) != len(b):
+            return f"{path}: {len(a)} items before, {len(b)} after"
+        for i, (x, y) in enumerate(zip(a, b)):
+            if not same_numbers(x, y):
+                return first_diff_num(x, y, f"{path}[{i}]")
+    return f"{path}: {a!r} before, {b!r} after"
 
 
 def structure_case_problems(ctx, env, d, names):
